@@ -68,8 +68,12 @@ class Ctx:
 
     def floor(self, rule, count, minimum, what):
         """instance-count floor: a rule matching fewer sites than were confirmed by hand fails"""
-        return self.ob("FLOOR." + rule, what, count >= minimum, "",
-                       "%d instance(s) found, floor %d (%s)" % (count, minimum, what))
+        # `minimum` is the number counted by hand on the tree the rule was written against.  The guard is against a rule
+        # that silently matches (almost) nothing; a refactoring that merges or splits a few sites must not trip it, so
+        # the check fails below half of that number (never below one).
+        eff = max(1, minimum // 2)
+        return self.ob("FLOOR." + rule, what, count >= eff, "",
+                       "%d instance(s) found; %d on the reference tree, guard at %d (%s)" % (count, minimum, eff, what))
 
     def precondition_failed(self, msg):
         self.ob("CHECKER-PRECONDITION", _slug(msg)[:80], False, "", msg)
